@@ -3,7 +3,8 @@
    res = Ok | Err (an exception); pv = str | bool | int | list of str. *)
 From MV Require Import Base.Strs Options.Kinds Options.Store Options.Init Options.Spec
                        Options.Proofs Options.Precedence Options.SubMerge Options.SubApply Options.Final
-                       Options.Buildtype Options.TopProject Options.YieldInv.
+                       Options.Buildtype Options.TopProject Options.YieldInv
+                       Options.Extensions.
 
 (* ---- "A value violating an option's type, choices or range is always rejected
         and a stored value always satisfies them." *)
@@ -370,3 +371,101 @@ Theorem C07_cmdline_buildtype_first : forall cmd,
   (dget cmd buildtype_key = None -> reorder_buildtype cmd = cmd).
 Proof. exact reorder_buildtype_spec. Qed.
 Print Assumptions C07_cmdline_buildtype_first.
+
+(* ---- read-only options (backend, vsenv): after the first invocation the value cannot change *)
+Theorem C07_readonly_option_cannot_change : forall f s k v s' ch rk o,
+  plain_name k = true ->
+  (forall rk o, resolve_option s k = Ok (rk, o) -> not_dname o = true) ->
+  resolve_for_set s k = Ok (rk, o) -> oreadonly o = true ->
+  set_option (S f) s k v false = Ok (s', ch) ->
+  exists v3 s2 old u, canon s k v = Ok v3 /\ store_value s k rk v3 = Ok (s2, old, u) /\ pv_eqb old v3 = true.
+Proof. exact readonly_value_cannot_change. Qed.
+Print Assumptions C07_readonly_option_cannot_change.
+
+Theorem C07_readonly_change_is_rejected : forall f s k v rk o v3 s2 old u,
+  plain_name k = true ->
+  (forall rk o, resolve_option s k = Ok (rk, o) -> not_dname o = true) ->
+  resolve_for_set s k = Ok (rk, o) -> oreadonly o = true ->
+  canon s k v = Ok v3 -> store_value s k rk v3 = Ok (s2, old, u) -> pv_eqb old v3 = false ->
+  set_option (S f) s k v false = Err EMeson.
+Proof. exact readonly_change_is_rejected. Qed.
+Print Assumptions C07_readonly_change_is_rejected.
+
+(* ---- a per-subproject value that exists before the subproject is initialised keeps priority *)
+Theorem C07_subproject_existing_override_kept : forall f s sub spcall pdo cmd mf s' merged q a,
+  initialize_from_subproject_call (S f) s sub spcall pdo cmd mf = Ok s' ->
+  merge_sub s sub spcall pdo cmd mf = Ok merged ->
+  pfx_okb s = true -> forallb (sub_entry_okb sub s) merged = true ->
+  ksub q = Some sub -> kmach q = Host ->
+  dmem (options s) q = false -> is_project_option s q = false ->
+  dmem (options s) (no_sub q) = true ->
+  aslot s q = Some a ->
+  get_value_for s' q = Ok a.
+Proof.
+  intros f s sub spcall pdo cmd mf s' merged q a Hi Hm Hp Hg.
+  exact (sub_existing_augment_kept f s sub spcall pdo cmd mf s' merged q a Hi Hm
+           (pfx_okb_sound _ Hp) (sub_entry_okb_sound _ _ _ Hg)).
+Qed.
+Print Assumptions C07_subproject_existing_override_kept.
+
+(* ---- "native and cross": in a native build build-machine keys read the host value, setting
+   them is ignored, and the top-level initialisation behaves as if every build-machine entry
+   had been removed from its sources (arbitrary sources, no guard) *)
+Theorem C07_native_build_key_reads_host : forall s k,
+  is_cross s = false -> get_value_for s k = get_value_for s (as_host k).
+Proof. exact native_build_reads_host. Qed.
+Print Assumptions C07_native_build_key_reads_host.
+
+Theorem C07_native_build_key_set_ignored : forall fuel s k v first,
+  is_cross s = false -> is_for_build k = true -> set_user_option fuel s k v first = Ok (s, false).
+Proof. exact native_build_set_ignored. Qed.
+Print Assumptions C07_native_build_key_set_ignored.
+
+Theorem C07_native_top_level_ignores_build_entries : forall fuel l s,
+  is_cross s = false ->
+  top_pdo_loop fuel s l = top_pdo_loop fuel s (host_only l) /\
+  top_mc_loop fuel s l = top_mc_loop fuel s (host_only l).
+Proof. exact native_top_loops_ignore_build. Qed.
+Print Assumptions C07_native_top_level_ignores_build_entries.
+
+(* ---- "prefix-dependent directory defaults follow the prefix", through the whole top-level
+   initialisation: prefix from the highest-priority source; a directory option that no source
+   names holds the table value for that prefix (or its declared default); an explicit value
+   wins with the usual priority *)
+Theorem C07_top_level_directory_follows_prefix : forall f s pdo cmd mf s1 pdo' cmd' mf' s' n mapping p0 o,
+  first_handle_prefix s pdo cmd mf = Ok (s1, pdo', cmd', mf') ->
+  resolve_top (last_prefix cmd None) (dget mf prefix_key) (last_prefix pdo None) = Some (PStr p0) ->
+  initialize_from_top_level_project_call (S f) s pdo cmd mf = Ok s' ->
+  pfx_okb s1 = true -> forallb (good_entryb s1) (pdo' ++ mf' ++ cmd') = true ->
+  In (n, mapping) NOPREFIX ->
+  dget (options s) (nopref_key n) = Some o -> oyield o = false ->
+  is_project_option s1 (nopref_key n) = false -> aslot s1 (nopref_key n) = None ->
+  exists p v',
+    sanitize_prefix p0 = Ok p /\
+    validate (okind o) (match sassoc mapping p with Some x => PStr x | None => odefault o end) = Ok v' /\
+    get_value_for s' (nopref_key n) =
+      match resolve_top (dlast cmd' (nopref_key n)) (dlast mf' (nopref_key n)) (dlast pdo' (nopref_key n)) with
+      | Some v => canon s1 (nopref_key n) v
+      | None => Ok v'
+      end.
+Proof.
+  intros f s pdo cmd mf s1 pdo' cmd' mf' s' n mapping p0 o Hf Hpre Hi Hp Hg.
+  exact (top_level_dir_follows_prefix f s pdo cmd mf s1 pdo' cmd' mf' s' n mapping p0 o Hf Hpre Hi
+           (pfx_okb_sound _ Hp) (good_entryb_sound _ _ Hg)).
+Qed.
+Print Assumptions C07_top_level_directory_follows_prefix.
+
+(* ---- an option renamed with `deprecated: 'other-name'`: setting it sets the option it was
+   renamed to (sanitised value) and then itself *)
+Theorem C07_deprecated_name_sets_both_options : forall f s k v n rk o s' ch,
+  kmach k = Host -> plain_name k = true -> pfx_ok s ->
+  resolve_for_set s k = Ok (rk, o) -> odepr o = DName n ->
+  (forall rk' o', resolve_option s (evolve_name k n) = Ok (rk', o') -> not_dname o' = true) ->
+  plain_name (evolve_name k n) = true ->
+  set_option (S (S f)) s k v true = Ok (s', ch) ->
+  exists v1,
+    sanitize_value s k v = Ok v1 /\ R s s' /\
+    (forall x, oslot s' x = apply_wr_o (set_wr s k v) (apply_wr_o (set_wr s (evolve_name k n) v1) (oslot s)) x) /\
+    (forall x, aslot s' x = apply_wr_a (set_wr s k v) (apply_wr_a (set_wr s (evolve_name k n) v1) (aslot s)) x).
+Proof. exact deprecated_name_sets_both. Qed.
+Print Assumptions C07_deprecated_name_sets_both_options.
